@@ -47,7 +47,8 @@ def none_guard(s):
     return sorted(g for g in s.guard if g.endswith("is not None") and f"self.{s.name}" in g)
 
 
-def r03a(ctx):
+def r03a(ctx, only=None):
+    """only: restrict reported problems to tags starting with one of these prefixes (used by C02: uncounted sub-edits)."""
     m = ctx.model
     ctx.rule("R03a", "for every compound edit class, bounds() adds up exactly the sub-edits that edits() lists: same "
                      "attribute/collection sources, same constant-edit populations (no partial selection), same "
@@ -65,6 +66,17 @@ def r03a(ctx):
         zero = e1.zero_cost_collections(m, q)
         sb = e1.extract(fb.node, "bounds")
         se = e1.extract(fe.node, "edits")
+        # costs cached by the constructor: a self field read by bounds() whose __init__ assignment sums .bounds() calls
+        # contributes the sources of that assignment
+        init = m.method(q, "__init__")
+        if init is not None and init.cls == fb.cls:
+            read = {self_attr(x) for x in walk_no_nested(fb.node) if self_attr(x) and isinstance(getattr(x, "ctx", None), ast.Load)}
+            cached = [a for a in walk_no_nested(init.node) if isinstance(a, (ast.Assign, ast.AnnAssign)) and a.value is not None
+                      and self_attr(a.targets[0] if isinstance(a, ast.Assign) else a.target) in read
+                      and any(isinstance(c, ast.Call) and isinstance(c.func, ast.Attribute) and c.func.attr == "bounds" for c in ast.walk(a.value))]
+            if cached:
+                inside = {id(x) for a in cached for x in ast.walk(a)}
+                sb = sb + [s_ for s_ in e1.extract(init.node, "bounds") if id(s_.node) in inside]
         rb, cb, ub, delegate = roots_and_consts(m, q, sb, zero)
         re_, ce, ue, _ = roots_and_consts(m, q, se, zero)
         n += 1
@@ -110,6 +122,8 @@ def r03a(ctx):
                                          f"but edits() emits {e.name}{' selected by ' + e.selection if e.selection else ''}: "
                                          f"different populations, so the compound bound need not equal the sum of the "
                                          f"listed sub-edits", f"{ctor} population"))
+        if only is not None:
+            problems = [p_ for p_ in problems if p_[2].startswith(tuple(only))]
         if problems:
             for node, why, tag in problems:
                 ctx.violation("R03a", fb.file, f"{short}.bounds", node, f"{short}: {tag}", f"{short}: {why}")
@@ -240,6 +254,48 @@ def r03d(ctx):
                           f"_best_match adds {cell}.bounds().upper_bound into the cumulative cost, but {why}: a non-final "
                           f"upper bound is accumulated, so the reported list cost differs from the sum of the final "
                           f"sub-edit costs (and may depend on status settings)")
+
+
+    # path reconstruction: edits() walks back from the bottom-right cell through _best_match, which again adds the
+    # cells' upper bounds; every interior cell was exhausted by the fringe loop above, the bottom-right cell (the whole
+    # final diagonal, for which _next_fringe() returns False) is not
+    ed = m.method(q, "edits")
+    ecalls = [c for c in walk_no_nested(ed.node) if isinstance(c, ast.Call) and self_attr(c.func) == "_best_match" and len(c.args) == 2]
+    ctx.floor("R03d", len(ecalls), 1, "_best_match calls in EditDistance.edits")
+    for c in ecalls:
+        walk = parent(c)
+        while walk is not None and not isinstance(walk, ast.While):
+            walk = parent(walk)
+        r, cc = ast.unparse(c.args[0]), ast.unparse(c.args[1])
+        ok = None
+        if walk is not None:
+            blk = parent(walk)
+            for field in ("body", "orelse"):
+                lst = getattr(blk, field, [])
+                if walk in lst:
+                    for w in lst[:lst.index(walk)]:
+                        if isinstance(w, ast.While) and not any(isinstance(b, ast.Break) for b in ast.walk(w)):
+                            t = ast.unparse(w.test).replace(" ", "")
+                            if t in (f"self.edit_matrix[{r}][{cc}].tighten_bounds()", "self.edit_matrix[-1][-1].tighten_bounds()"):
+                                ok = f"`while {norm(w.test, 60)}` runs to exhaustion right before the walk back from the bottom-right cell"
+        if ok is None:
+            # alternative shape: the final diagonal is exhausted in tighten_bounds when _next_fringe() reports the end
+            for br in walk_no_nested(tb.node):
+                if isinstance(br, ast.If) and "self._next_fringe()" in ast.unparse(br.test):
+                    for w in br.body:
+                        if isinstance(w, ast.While) and not any(isinstance(b, ast.Break) for b in ast.walk(w)) \
+                                and ast.unparse(w.test).replace(" ", "") == "self.edit_matrix[-1][-1].tighten_bounds()":
+                            ok = "tighten_bounds exhausts self.edit_matrix[-1][-1] in the call that completes the matrix"
+        if ok:
+            ctx.proved("R03d", ed.file, "EditDistance.edits", c, "last cell refined before path reconstruction", ok)
+        else:
+            ctx.violation("R03d", ed.file, "EditDistance.edits", c, "last cell refined before path reconstruction",
+                          "edits() reconstructs the path with _best_match, which adds each chosen cell's current upper bound "
+                          "into self.costs, and bounds() reports costs[-1][-1] as soon as the matrix is complete; the "
+                          "bottom-right cell is the one cell the fringe loop never exhausts (for the final diagonal "
+                          "_next_fringe() returns False), and no `while self.edit_matrix[row][col].tighten_bounds()` precedes "
+                          "the walk back: TreeNode.diff() stops at is_complete(), calls bounds(), and a non-final cost of "
+                          "the last element is frozen - the list then reports more than the sum of its sub-edits")
 
 
 def r03e(ctx):
